@@ -37,6 +37,7 @@ func (fr *Frame) call(site ssa.Instruction, c *ssa.CallCommon, st *State) []*Ter
 	var args []*Term
 	for _, a := range c.Args {
 		args = append(args, fr.val(a))
+		fr.noEscape(a, "call argument")
 	}
 	if c.IsInvoke() {
 		recv := fr.val(c.Value)
@@ -274,6 +275,9 @@ func (fr *Frame) applyContract(fc *FuncContract, site ssa.Instruction, obj *type
 		ctx.atCallSite = true
 		ctx.assuming = assuming
 		ctx.lookup = func(name string) (Binding, bool) {
+			if name == "$recv" && len(names) > 0 {
+				return binds[names[0]], true
+			}
 			b, ok := binds[name]
 			return b, ok
 		}
